@@ -8,6 +8,7 @@ import (
 
 	"github.com/pojntfx/stfs/internal/converters"
 	"github.com/pojntfx/stfs/internal/records"
+	"github.com/pojntfx/stfs/internal/suffix"
 	"github.com/pojntfx/stfs/internal/tarext"
 	"github.com/pojntfx/stfs/pkg/config"
 	"github.com/pojntfx/stfs/pkg/encryption"
@@ -78,6 +79,13 @@ func (o *Operations) Delete(name string) error {
 		}
 
 		hdr.Size = 0 // Don't try to seek after the record
+		if hdr.FileInfo().Mode().IsRegular() {
+			// The indexer removes the suffix from every regular file's name
+			hdr.Name, err = suffix.AddSuffix(hdr.Name, o.pipes.Compression, o.pipes.Encryption)
+			if err != nil {
+				return err
+			}
+		}
 		hdr.PAXRecords[records.STFSRecordVersion] = records.STFSRecordVersion1
 		hdr.PAXRecords[records.STFSRecordAction] = records.STFSRecordActionDelete
 		delete(hdr.PAXRecords, records.STFSRecordReplacesName) // Don't inherit the records of the header's last update or move
